@@ -2,6 +2,31 @@ use crate::util::ChainGangError;
 use std::io;
 use std::io::{Read, Write};
 
+/// Upper bound, in bytes, on the memory reserved up front on the word of a count or length field
+/// read from untrusted input. Beyond it, buffers grow with the bytes actually supplied.
+pub(crate) const MAX_PREALLOC_BYTES: usize = 1 << 20;
+
+/// Capacity to reserve for `n` elements of `elem_size` bytes each when `n` comes from untrusted input
+pub(crate) fn capped_capacity(n: u64, elem_size: usize) -> usize {
+    let max = MAX_PREALLOC_BYTES / elem_size.max(1);
+    if n > max as u64 {
+        max
+    } else {
+        n as usize
+    }
+}
+
+/// Reads exactly `len` bytes, like `vec![0; len]` followed by `read_exact`, but without trusting `len`:
+/// the buffer grows with the bytes actually present
+pub(crate) fn read_bytes(reader: &mut dyn Read, len: u64) -> io::Result<Vec<u8>> {
+    let mut bytes = Vec::with_capacity(capped_capacity(len, 1));
+    let n = reader.take(len).read_to_end(&mut bytes)?;
+    if (n as u64) < len {
+        return Err(io::Error::new(io::ErrorKind::UnexpectedEof, "failed to fill whole buffer"));
+    }
+    Ok(bytes)
+}
+
 /// An object that may be serialized and deserialized
 pub trait Serializable<T> {
     /// Reads the object from serialized form
